@@ -76,6 +76,16 @@ impl StateMetadataDocument {
   /// Pack a [`StateMetadataDocument`] into bytes, suitable for inclusion in
   /// an Alias Output's state metadata, according to the given `encoding`.
   pub fn pack(mut self, encoding: StateMetadataEncoding) -> Result<Vec<u8>> {
+    // Do not write what `into_iota_document` refuses to read: the id and the controllers are either the placeholder or
+    // valid IOTA DIDs (an `IotaDocument` converted from a `CoreDocument` is not checked anywhere else).
+    let placeholder: &CoreDID = &PLACEHOLDER_DID;
+    let controllers = self.document.controller().map(|controllers| controllers.iter());
+    for did in core::iter::once(self.document.id()).chain(controllers.into_iter().flatten()) {
+      if did != placeholder {
+        IotaDID::check_validity(did).map_err(Error::DIDSyntaxError)?;
+      }
+    }
+
     // Unset Governor and State Controller Addresses to avoid bloating the payload
     self.metadata.governor_address = None;
     self.metadata.state_controller_address = None;
